@@ -154,6 +154,11 @@ def pre_ok(job, env, args):
 
 def main():
     job = json.load(sys.stdin)
+    if job['mode'] == 'scenario':
+        from specs import scenarios
+        r = scenarios.SCENARIOS[job['scenario']](random.Random(job.get('seed', 0)), job.get('n', 300))
+        print(json.dumps(r, default=str))
+        return
     env = spec_env()
     if job['mode'] == 'replay':
         args = {k: dec(v) for k, v in job['inputs'].items()}
